@@ -140,6 +140,16 @@ impl Scenario for MhStreams {
             if let Some((i, j)) = first_pair_equal(&accs) {
                 o.violate("same_acceptance_stream", &format!("MH[{how}]:chains-share-acceptance-stream"), format!("chains {i} and {j} have identical acceptance generators"));
             }
+            // "no two chains consume the same random stream", whatever they use it for: the proposal generator of
+            // one chain must not be the acceptance generator of another either (all 2n generators pairwise distinct)
+            let all: Vec<SmallRng> = spies.iter().cloned().chain(accs.iter().cloned()).collect();
+            if o.violations.is_empty() {
+                if let Some((i, j)) = first_pair_equal(&all) {
+                    if i < nc && j >= nc && j - nc != i {
+                        o.violate("same_stream_across_roles", &format!("MH[{how}]:proposal-generator-of-one-chain-is-acceptance-generator-of-another"), format!("{nc} chains ({how}, seed {seed}): the proposal generator of chain {i} is in the same state as the acceptance generator of chain {}", j - nc));
+                    }
+                }
+            }
             // acceptance draws must not be copies of the values that produced the proposal:
             // compare the next raw words of both generators of every chain
             for (i, c) in s.chains.iter().enumerate() {
@@ -186,7 +196,7 @@ impl Scenario for MhStreams {
         out
     }
     fn rule(&self) -> &'static str {
-        "one run = an MH sampler with 2..64 chains all started at one state, built with defaults or seeded (special seeds), with the library's or a user-defined seedable proposal; every pair of chains must differ in proposal noise, acceptance generator and trajectory, and no chain's acceptance generator may equal its proposal generator; distinct = parameter hash"
+        "one run = an MH sampler with 2..64 chains all started at one state, built with defaults or seeded (special seeds), with the library's or a user-defined seedable proposal; every pair of chains must differ in proposal noise, acceptance generator and trajectory, no chain's acceptance generator may equal its proposal generator, nor any chain's proposal generator another chain's acceptance generator; distinct = parameter hash"
     }
     fn components(&self) -> Value {
         json!({"real": ["MetropolisHastings::new / seed", "MHMarkovChain::step", "IsotropicGaussian"], "stub": ["SpyProposal (user-defined, public generator)"]})
@@ -214,6 +224,11 @@ impl Scenario for GradStreams {
             let nc = g.usize(2, 5);
             return json!({"kind": *g.pick(&["hmc_nd_f32", "hmc_nd_f64"]), "dim": dim, "n_chains": nc, "seeded": g.bool(2, 3), "seed": crate::props::c07::special_seed(g, nc).to_string()});
         }
+        if g.bool(1, 10) {
+            // fault: the user's target code panics once during a NUTS run, the caller catches it and goes on
+            let nc = g.usize(2, 8);
+            return json!({"kind": "nuts_panic_f64", "n_chains": nc, "seeded": g.bool(2, 3), "seed": crate::props::c07::special_seed(g, nc).to_string(), "crash_eval": g.usize(3, 40 * nc)});
+        }
         json!({"kind": *g.pick(&["hmc_f32", "hmc_f64", "nuts_f32", "nuts_f64"]), "n_chains": nc, "seeded": g.bool(2, 3), "seed": crate::props::c07::special_seed(g, nc).to_string(), "history": g.bool(1, 2)})
     }
     fn execute(&self, p: &Value, ws: bool) -> Outcome {
@@ -234,6 +249,33 @@ impl Scenario for GradStreams {
         o.count("probe_two_call_history", history as u64);
         mcmc_sim::trace::start();
         match kind {
+            "nuts_panic_f64" => {
+                use crate::gtargets::{GKind, GTarget};
+                let mut t = GTarget::new(GKind::Quartic, 2);
+                t.crash_at = pu(p, "crash_eval");
+                // a burst of failures: several chains are interrupted in the same run
+                t.crash_len = nc as u64;
+                let mut s = NUTS::<f64, BF64, GTarget>::new(t, vec![vec![0.5f64, 0.5]; nc], 0.8);
+                if seeded {
+                    s = s.set_seed(seed);
+                }
+                let _ = mcmc_sim::sim::take_last_panic();
+                let r = std::panic::catch_unwind(std::panic::AssertUnwindSafe(|| {
+                    let _ = s.run(3, 2);
+                }));
+                let fired = r.is_err() && mcmc_sim::sim::take_last_panic().unwrap_or_default().contains("VERIF-INJECTED");
+                o.count("fault_target_code_panicked", fired as u64);
+                // whatever the interrupted update was doing: afterwards the chains still own distinct streams
+                let rngs: Vec<SmallRng> = s.verif_chains().iter().map(|c| c.verif_rng().clone()).collect();
+                if let Some((i, j)) = first_pair_equal(&rngs) {
+                    o.violate("same_generator", &format!("NUTS[{how}]:chains-share-generator-after-a-caught-target-failure"), format!("{nc} chains ({how}): after the target's code failed during run() and the caller caught it, chains {i} and {j} hold generators in the same state"));
+                }
+                let r2 = std::panic::catch_unwind(std::panic::AssertUnwindSafe(|| crate::zoo::tensor_bits(&s.run(3, 0))));
+                let _ = mcmc_sim::trace::stop();
+                if let Ok((bits, shape)) = r2 {
+                    traj = (0..shape[0]).map(|c| bits[c * shape[1] * shape[2]..(c + 1) * shape[1] * shape[2]].to_vec()).collect();
+                }
+            }
             "hmc_nd_f32" | "hmc_nd_f64" => {
                 use crate::gtargets::{GKind, GTarget};
                 let t = GTarget::new(GKind::Quartic, dim);
